@@ -395,8 +395,39 @@ pub fn path_defs() -> Vec<SubjectDef> {
         // one leaf with a look-ahead branch (late accept) and non-extendable multi-byte branches that a lower-priority leaf
         // matches as well (early accept with the same edges): the two kinds of accept must stay apart
         core(true, vec![rx(" ")], vec![vec![pr(rx("[0-9]+(?-u:\\b)|π|∞"), 10)], vec![pr(rx("\\p{Greek}|[∞∑∏√]"), 2)], vec![pr(rx("[a-z]+"), 3)], vec![pr(rx("é+$|€"), 9)], vec![pr(rx("[€-₿]"), 1)]], false),
+        // twin loop states: same leaf, same edges to other states (a common tail with several continuations), different
+        // self-loop classes - states that "transition alike" except for the bytes they loop on
+        core(true, vec![rx(" ")], vec![vec![rx("0x[0-9a-f]+(u|l|ul)?|0b[01]+(u|l|ul)?")], vec![rx("x[a-z]*(;|::)|y[0-9]*(;|::)")], vec![tok(";")], vec![rx("(?:p[0-9]*|q[a-c]*)(?:!|\\?\\?|=)")]], false),
+        // a counted repetition far beyond the generator's bounds: hundreds of states in front of one final state
+        core(true, vec![], vec![vec![rx("[0-9a-f]{1,300}")], vec![rx("[g-z]+")], vec![tok("-")]], false),
         // Unicode-aware negated class loop lexing arbitrary bytes (utf8 = false): invalid sequences end the loop
         core(false, vec![], vec![vec![rx("[^;§]+")], vec![tok(";")], vec![tok("§")], vec![brx(b"(?-u:[\\x80-\\xff])")]], false),
+    ]
+}
+
+/// Fixed members of the literal family (C10 on compiled lexers): case-insensitive literals whose two cases differ in the
+/// last byte by one bit other than 0x20 (ⅷ/Ⅷ 0x10, ἀ/Ἀ 0x08, ā/Ā 0x01), by 0x20 (а/А), in two bytes (я/Я), in length
+/// (ſ/s, K/k, ß/ẞ), in a 4-byte char (𐐨/𐐀); literals made of regex metacharacters; byte-string literals.
+pub fn lit_defs() -> Vec<SubjectDef> {
+    use crate::spec::{DefSpec, LitSpec, PatSpec};
+    let ci = |mut p: PatSpec| {
+        p.ignore_case = true;
+        p
+    };
+    let tok = |t: &str| PatSpec::token(LitSpec::str(t));
+    let rx = |t: &str| PatSpec::regex(LitSpec::str(t));
+    let lit = |utf8: bool, skips: Vec<PatSpec>, variants: Vec<Vec<PatSpec>>| SubjectDef {
+        family: "lit".into(),
+        def: DefSpec { utf8, subpatterns: vec![], skips, variants },
+        skip_log: false,
+        has_value: vec![],
+        error_cb: false,
+        twin: false,
+    };
+    vec![
+        lit(true, vec![ci(rx("ⅰ"))], vec![vec![ci(tok("ⅷ"))], vec![ci(tok("ἀρχή"))], vec![ci(tok("ā"))], vec![ci(tok("яа"))], vec![ci(tok("𐐨"))], vec![ci(rx("ὀ+"))], vec![tok("ⅸ")]]),
+        lit(true, vec![], vec![vec![ci(tok("ſk"))], vec![ci(tok("straße"))], vec![ci(tok("ǆ"))], vec![ci(tok("σ."))], vec![tok("a+b")], vec![tok("(?i)")], vec![tok("[a-z]")], vec![tok("\\")]]),
+        lit(false, vec![], vec![vec![ci(PatSpec::token(LitSpec::bytes(b"k\xC3\xA9".to_vec())))], vec![ci(PatSpec::token(LitSpec::bytes(b"Q\xff".to_vec())))], vec![ci(tok("ⅷ"))], vec![PatSpec::token(LitSpec::bytes(b"\x00.".to_vec()))]]),
     ]
 }
 
